@@ -371,7 +371,11 @@ func (d *Driver) ReportViolation(c Case, r Result) {
 	path := filepath.Join(dir, name+".json")
 	b, _ := json.MarshalIndent(Replay{Property: d.Prop.ID(), Tier: d.Tier, Seed: d.Seed, Case: c, Result: r}, "", " ")
 	os.WriteFile(path, b, 0o644)
-	fmt.Printf("DETAIL property=%s case=%s status=%s %s\n", d.Prop.ID(), c.ID, r.Status, Truncate(strings.ReplaceAll(r.Detail, "\n", " ⏎ "), 600))
+	short := r.Detail
+	if i := strings.Index(short, "\n--- source ---"); i >= 0 {
+		short = short[:i]
+	}
+	fmt.Printf("DETAIL property=%s case=%s status=%s %s\n", d.Prop.ID(), c.ID, r.Status, Truncate(strings.ReplaceAll(short, "\n", " ⏎ "), 900))
 	fmt.Printf("VIOLATION property=%s replay=%s\n", d.Prop.ID(), path)
 }
 
